@@ -1016,9 +1016,47 @@ func main() {
 			}
 		}
 	} else {
-		n := run.Scale(1200, 40000)
+		n := run.Scale(1200, 36000)
 		for i := 0; i < n; i++ {
 			cases = append(cases, genCase(run.Rand, run.Thorough()))
+		}
+		// systematic stream: EVERY single fault placement (operation x node of the closure of the
+		// roots) and every single cancellation point on small graphs, K = 1 and 2
+		nb := run.Scale(6, 60)
+		for i := 0; i < nb; i++ {
+			base := genCase(run.Rand, false)
+			if len(base.Nodes) > 8 {
+				i--
+				continue
+			}
+			g := dag.Decode(base.Nodes)
+			seen := map[int]bool{}
+			var rl []int
+			for _, rt := range base.Roots {
+				for k := range g.Reach(rt) {
+					if !g.Nodes[k].Foreign() && !seen[k] {
+						seen[k] = true
+						rl = append(rl, k)
+					}
+				}
+			}
+			sort.Ints(rl)
+			for _, nd := range rl {
+				for _, op := range []string{"exists", "fetch", "push", "pushlate", "cancel-exists", "cancel-fetch", "cancel-push"} {
+					for k := 1; k <= 2; k++ {
+						cc := *base
+						cc.K = k
+						cc.Faults, cc.Cancel = nil, nil
+						if strings.HasPrefix(op, "cancel-") {
+							cc.Cancel = &Fault{Op: op[7:], Node: nd}
+						} else {
+							cc.Faults = []Fault{{Op: op, Node: nd}}
+						}
+						cc.Lat = (nd + k) % 4
+						cases = append(cases, &cc)
+					}
+				}
+			}
 		}
 	}
 	var w *workerProc
@@ -1123,7 +1161,7 @@ func main() {
 			}
 		}
 	}
-	run.Rule = "random OCI DAGs (harness/dag) x K x initial destination content x fault plan (exists|fetch|push|pushlate = stored-then-failed, node) x cancellation point x latency mode; per case: skeleton of copyGraph.fn on the real syncutil.Go/LimitedRegion/Tracker (trace must be a run of the Coq LTS) and the real CopyGraph/ExtendedCopyGraph with instrumented stores; distinct = distinct (graph, K, roots, event trace); non-trivial = more than 6 protocol events"
+	run.Rule = "random OCI DAGs (harness/dag) x K x initial destination content x fault plan (exists|fetch|push|pushlate = stored-then-failed, node) x cancellation point x latency mode, plus a systematic stream (every single fault placement and cancellation point on small graphs, K=1,2); per case: skeleton of copyGraph.fn on the real syncutil.Go/LimitedRegion/Tracker (trace must be a run of the Coq LTS) and the real CopyGraph/ExtendedCopyGraph with instrumented stores; distinct = distinct (graph, K, roots, event trace); non-trivial = more than 6 protocol events"
 	run.Finish()
 	if floorFail != "" {
 		fmt.Fprintln(os.Stderr, "coverage floor not reached:"+floorFail)
